@@ -141,3 +141,8 @@ def run(ctx):
     ctx.coverage["distinct_nontrivial"] = st["distinct"]
     ctx.coverage["rule"] = "all expression trees of depth <= 2 over 15 binary operators, !, unary minus, 5 leaves (sampled in the quick tier) and random trees up to depth 5, each printed with minimal and with full parenthesisation, under 3 variable valuations; distinct = distinct (valuation, text) pairs"
     ctx.assumptions += ["literals above INT_MAX are outside the generated expressions", "the compiled LALR tables behave as an operator-precedence parser with the probed matrix (validated by comparing results, not proved)"]
+
+
+def replay(ctx, path):
+    import uvlib
+    return uvlib.generic_replay(ctx, path, [(None, "promela", "promela", None)])
